@@ -166,6 +166,7 @@ type Path struct {
 	selectChoice bool
 	allocLimit int64
 	uuidCalls int
+	env       map[string]NF // process environment as set by rt.Setenv
 	tokenSeq  int
 	atomicVC  VC
 	atomicVCFull VC
